@@ -78,7 +78,9 @@ def resume(c, name, via, k=2, warm=6, N=5):
         s2.load_checkpoint(path); os.remove(path); os.rmdir(d)
     np.random.set_state(rs)
     s2.sample(N - k)
-    c.eq('resumed_run_makes_the_transitions_of_the_uninterrupted_run', _chain(s2), ref, tol=1e-12)
+    got = _chain(s2)
+    c.holds('resumed_run_makes_as_many_transitions_as_the_uninterrupted_run', len(got) == len(ref) == N - k, note=f"{len(got)} {len(ref)}")
+    if N - k: c.eq('resumed_run_makes_the_transitions_of_the_uninterrupted_run', got, ref, tol=1e-12)
 
 
 def recording(c, name, N=5, warm=3):
@@ -225,7 +227,7 @@ def jobs(tier):
         J.append(Job(f'experimental.{name}:split_continuity', lambda c, n=name: split_continuity(c, n), 'B', FL, nnum=2))
         J.append(Job(f'experimental.{name}:split_continuity_after_warmup', lambda c, n=name: split_continuity(c, n, 3, 2, 5), 'B', FL, nnum=2))
         for via in ('state', 'file'):
-            for k in ((0, 2) if q else (0, 1, 2, 5)):
+            for k in ((0, 2) if q else (0, 1, 2, 4, 5)):
                 J.append(Job(f'experimental.{name}:resume_via_{via}:checkpoint_at={k}', lambda c, n=name, v=via, k=k: resume(c, n, v, k), 'B', FL, nnum=2))
         J.append(Job(f'experimental.{name}:recording_and_callback', lambda c, n=name: recording(c, n), 'B', FL, nnum=2))
         J.append(Job(f'experimental.{name}:reinitialize', lambda c, n=name: reinit(c, n), 'B', FL, nnum=1))
